@@ -84,6 +84,10 @@ pub struct Built {
     /// human-readable trace of what each op did
     pub trace: Vec<String>,
     pub labels: std::collections::BTreeSet<&'static str>,
+    /// export names given so far (checked against `get_export` by users)
+    pub exports: Vec<(String, NodeId)>,
+    /// arguments the history designated (every accepted set, minus unsets and removals)
+    pub designated: std::collections::BTreeMap<(NodeId, String), NodeId>,
 }
 
 pub enum BuildError {
@@ -128,7 +132,7 @@ pub fn execute(case: &GCase) -> Result<Built, BuildError> {
         let id = graph.register_package(pkg).map_err(|e| BuildError::Foreign(format!("register_package: {e}")))?;
         pkgs.push(PkgInfo { name, version, bytes, id, shaped });
     }
-    let mut b = Built { graph, library, pkgs, nodes: vec![], trace: vec![], labels: Default::default() };
+    let mut b = Built { graph, library, pkgs, nodes: vec![], trace: vec![], labels: Default::default(), exports: vec![], designated: Default::default() };
     for op in &case.ops {
         let r = guarded(|| apply(&mut b, op));
         if let Err(p) = r {
@@ -220,6 +224,7 @@ fn apply(b: &mut Built, op: &GOp) {
                                     b.nodes.push(a);
                                 }
                                 if b.graph.set_instantiation_argument(inst, &name, a).is_ok() {
+                                    b.designated.insert((inst, name.clone()), a);
                                     b.trace.push(format!("n{inst}.{name:?} := n{a} (alias n{other}[{en:?}])"));
                                     b.labels.insert("argument-edge");
                                     if b.graph.get_instantiation_arguments(inst).filter(|(_, s)| *s == a).count() > 1 || instantiations(b).iter().filter(|x| b.graph.get_instantiation_arguments(**x).any(|(_, s)| s == a)).count() > 1 {
@@ -247,6 +252,7 @@ fn apply(b: &mut Built, op: &GOp) {
             let (name, _) = &im[pick(*a, im.len())];
             let src = b.nodes[pick(*s, b.nodes.len())];
             if b.graph.set_instantiation_argument(inst, name, src).is_ok() {
+                b.designated.entry((inst, name.clone())).or_insert(src);
                 b.labels.insert("argument-edge");
                 b.trace.push(format!("n{inst}.{name:?} := n{src}"));
             }
@@ -263,6 +269,7 @@ fn apply(b: &mut Built, op: &GOp) {
             }
             let (name, src) = &args[pick(*a, args.len())];
             if b.graph.unset_instantiation_argument(inst, name, *src).is_ok() {
+                b.designated.remove(&(inst, name.clone()));
                 b.trace.push(format!("unset n{inst}.{name:?}"));
             }
         }
@@ -291,6 +298,7 @@ fn apply(b: &mut Built, op: &GOp) {
                     }
                     b.trace.push(format!("n{n} = import {import_name:?} (kind of n{inst}.{name:?})"));
                     if *pass && b.graph.set_instantiation_argument(inst, name, n).is_ok() {
+                        b.designated.entry((inst, name.clone())).or_insert(n);
                         b.labels.insert("argument-edge");
                         b.trace.push(format!("n{inst}.{name:?} := n{n}"));
                     }
@@ -314,6 +322,7 @@ fn apply(b: &mut Built, op: &GOp) {
             };
             let already = b.graph[node].export_name().is_some();
             if b.graph.export(node, &name).is_ok() {
+                b.exports.push((name.clone(), node));
                 b.labels.insert("export");
                 if already {
                     b.labels.insert("exported-under-several-names");
@@ -333,6 +342,7 @@ fn apply(b: &mut Built, op: &GOp) {
                         b.nodes.push(a);
                     }
                     if b.graph.export(a, &en).is_ok() {
+                        b.exports.push((en.clone(), a));
                         b.labels.insert("export");
                         b.trace.push(format!("export n{a} (alias n{inst}[{en:?}]) as {en:?}"));
                     }
@@ -357,6 +367,8 @@ fn apply(b: &mut Built, op: &GOp) {
             b.graph.remove_node(node);
             let live: std::collections::BTreeSet<NodeId> = b.graph.node_ids().collect();
             b.nodes.retain(|x| live.contains(x));
+            b.exports.retain(|(name, n)| live.contains(n) && b.graph.get_export(name) == Some(*n));
+            b.designated.retain(|(i, _), s| live.contains(i) && live.contains(s));
             b.labels.insert("removal");
             b.trace.push(format!("remove n{node}"));
         }
